@@ -66,7 +66,8 @@ impl<T> EventSource for Park<'_, T> {
         let wait_co = &self.queue.wait_co;
         wait_co.store(Blocker::new_coroutine(co));
         // re-check the state, only clear once after resume
-        if !self.queue.queue.is_empty() {
+        // the sender may be gone already: nobody would wake us up then
+        if !self.queue.queue.is_empty() || self.queue.channels.load(Ordering::Relaxed) == 0 {
             if let Some(co) = wait_co.take() {
                 run_coroutine(co.into_coroutine());
             }
